@@ -41,8 +41,10 @@ def r1(c):
         a = P.adt(ty)
         priv = all(f['vis'] != 'Public' for v in a['variants'] for f in v['fields'])
         c.ob('private-field/%s' % ty.rsplit('::', 1)[-1], priv, 'the wrapped range is not a public field', str([(f['name'], f['vis']) for v in a['variants'] for f in v['fields']]))
-    for f, ty in (('rodbus::client::requests::read_bits::ReadBits::new', 'rodbus::types::ReadBitsRange'), ('rodbus::client::requests::read_bits::ReadBits::channel', 'rodbus::types::ReadBitsRange'),
-                  ('rodbus::client::requests::read_registers::ReadRegisters::new', 'rodbus::types::ReadRegistersRange'), ('rodbus::client::requests::read_registers::ReadRegisters::channel', 'rodbus::types::ReadRegistersRange')):
+    # (`new` is the only place the request struct is built -- see below -- so any other constructor such as `channel` goes through it,
+    #  whatever it accepts itself)
+    for f, ty in (('rodbus::client::requests::read_bits::ReadBits::new', 'rodbus::types::ReadBitsRange'),
+                  ('rodbus::client::requests::read_registers::ReadRegisters::new', 'rodbus::types::ReadRegistersRange')):
         b = P.outer(f)
         c.ob('signature/%s' % '::'.join(f.split('::')[-2:]), b.sig_in and norm(b.sig_in[0]) == ty, '%s accepts only a %s' % (f, ty.rsplit('::', 1)[-1]), str(b.sig_in), loc_of(b))
     # the read request types can only be built through those constructors
